@@ -21,6 +21,43 @@ def _is_vmapped_qr(t: T) -> Optional[T]:
     return None
 
 
+def _vmapped_qr_pair(ev: Evaluator, t: T, fr=None) -> Optional[T]:
+    """vmap(F)(X) where F(x) returns (qr(x)[0], prod(diag(qr(x)[1]))) of ONE qr call  ->  X"""
+    vm = match_vmap(t) if t.op == "call" else None
+    if vm is None or len(vm[2]) != 1:
+        return None
+    f = vm[0]
+    x = sym("§det")
+    body = None
+    try:
+        if f.op == "closure":
+            body = ev.open_closure(f, [x])
+        elif f.op in ("fn", "attr"):
+            cands = ev.resolve_callees(f, fr)
+            if cands and len(cands) == 1 and fr is not None:
+                body = ev.inline_function(fr, f, cands[0][0], cands[0][1], [x], [], 0)
+    except AnalysisError:
+        body = None
+    if body is None:
+        return None
+    body = strip_wrappers(body)
+    if body.op != "tuple" or len(body.args) != 2:
+        return None
+    qq, nn = strip_wrappers(body.args[0]), strip_wrappers(body.args[1])
+    if not (qq.op == "getitem" and is_const(qq.args[1], 0) and qq.args[0].op == "call" and
+            (func_name(qq.args[0]) or "").endswith("linalg.qr") and call_parts(qq.args[0])[1] and
+            call_parts(qq.args[0])[1][0] is x):
+        return None
+    pr = m_arrcall(nn, "prod")
+    dg = m_arrcall(strip_wrappers(pr[0]), "diag", "diagonal") if pr is not None else None
+    if dg is None:
+        return None
+    r_ = strip_wrappers(dg[0])
+    if not (r_.op == "getitem" and is_const(r_.args[1], 1) and r_.args[0] is qq.args[0]):
+        return None
+    return vm[2][0]
+
+
 def _norm_of(ev: Evaluator, t: T, fr=None) -> Optional[T]:
     """The R whose diagonal product (per walker) t is; None if t is not of one of the forms
          vmap(lambda x: prod(diag(x)))(R)        (lambda, local def or module-level helper)
@@ -108,6 +145,14 @@ def pair3(ctx, fi: FuncInfo) -> int:
                            f"whose Q is returned")
                 else:
                     ok, why = True, "Q, prod(diag(R)) of one vmap(qr) call"
+        elif q.op == "getitem" and is_const(q.args[1], 0) and nf.op == "getitem" and is_const(nf.args[1], 1) and \
+                nf.args[0] is q.args[0] and _vmapped_qr_pair(ev, q.args[0], fr) is not None:
+            # one vmapped per-determinant function returning (Q, prod(diag R)) of one qr call of its argument
+            inp = _vmapped_qr_pair(ev, q.args[0], fr)
+            if inp is src_w:
+                ok, why = True, "(Q, prod(diag(R))) of one qr call, mapped over the walkers"
+            else:
+                why = f"Q{tag} is factorised from {show(inp, maxdepth=2)}, not from the input block"
         else:
             why = f"returned walkers{tag} are not element 0 of vmap(jnp.linalg.qr)(...)"
         n += 1
